@@ -63,6 +63,7 @@ def judge_function(f, acc, label):
         F("dual_table_accessor_raises", "get_class_constraints_duals() raised %s: %s" % (type(e).__name__, str(e)[:100]))
         duals = None
     lab = label
+    current_ids = {id(c) for c in f.list_of_class_constraints}
     for cname, cl in by_name.items():
         acc.count("tables_expected")
         T = tables.get(cname)
@@ -116,6 +117,10 @@ def judge_function(f, acc, label):
                     sym_ok = E.of(el.expression).key(el.equality_or_inequality, lab) == rc["expr"].key(rc["sense"], lab)
                     if not sym_ok:
                         F("table_entry_wrong_constraint", "table '%s' entry (%d,%d) holds a constraint that is not the one of that pair" % (cname, i, j))
+                    continue
+                if isinstance(el, Constraint) and id(el) not in current_ids:
+                    F("table_holds_constraint_of_an_earlier_solve", "table '%s' entry (%d,%d) holds a constraint that is not among the class "
+                      "constraints generated for (and sent at) the latest solve" % (cname, i, j))
                     continue
                 if isinstance(el, Constraint):
                     if rc is None:
